@@ -7,12 +7,22 @@
        target of the result is _blank; the target flag is exactly "some target is _blank";
      - second loop: every rel attribute carries noopener and one exists; tokens present before survive;
      - a required token is not appended when present as a token; values are only extended.
-   Missing for the full statement: the composition of these facts through the flag plumbing of
-   link_pass / sanitizeAttrs (about 40 lines of straight-line code); it is covered by the link
+   Composition (C11_attrs, Proofs/LinkCompose.v): for the list sanitizeAttrs returns, for every
+   policy with one of the five options on, every element of the rel/target table (a, area, link and
+   base) and every attribute list: if the result carries an href (ext = some href of the result
+   has a host), then with RequireNoFollow / RequireNoReferrer (or the fully-qualified variants and
+   ext) a rel attribute exists and every rel attribute has the token; for a with ext and
+   AddTargetBlank the first target attribute exists and is _blank; for a, if some target of the
+   result is _blank, a rel attribute exists and every rel attribute has noopener; tokens that were
+   on every rel attribute after the filtering loop are still on every rel attribute.  With
+   C11_no_duplicate / C11_tokens_kept (values are only extended, by missing tokens).
+   C11_output_tokens: the same for the attributes of every a/area/link/base tag that a tokenizer
+   reads from the output bytes (policies without comments and raw-text elements).
+   Missing: byte level for policies with comments / raw-text elements; covered by the link
    correspondence (all 32 option combinations x generated attribute lists) and the output oracle. *)
 From Coq Require Import List NArith Bool.
 Import ListNotations.
-From BM Require Import Bytes Strings Tokenizer Policy Attrs GenTables Forced TablesInst ForcedAttrs LinkProofs.
+From BM Require Import Bytes Strings Tokenizer Policy Attrs Loop GenTables Forced TablesInst ForcedAttrs LinkProofs LinkCompose SanRoundTrip TokenLevel.
 
 Theorem C11_first_loop_partial : forall (is_a addNF addNR addTB : bool) attrs nf nr tb r nf' nr' tb',
   link_pass1 is_a addNF addNR addTB attrs nf nr tb = (r, nf', nr', tb') ->
@@ -44,7 +54,77 @@ Proof. exact add_word_extends. Qed.
 Theorem C11_elements : subset link_rel_documented link_rel_elements = true /\ subset link_rel_elements linkable_elements = true.
 Proof. split; [exact link_rel_table_documented | exact link_rel_linkable]. Qed.
 
+Lemma link_rel_linkable_all : forall e, mem e link_rel_elements = true -> linkable e = true.
+Proof.
+  intros e He. pose proof link_rel_linkable as T. unfold subset in T. rewrite forallb_forall in T.
+  unfold linkable. apply T. apply mem_In. exact He.
+Qed.
+
+Section C11.
+  Variables M U R : Type.
+  Variable I : interp M U R.
+  Variable p : policy M U R.
+
+  Definition link_hardened (elem : bytes) (out : list attr) (ext : bool) : Prop :=
+    let NF := requireNoFollow p || (ext && requireNoFollowFQ p) in
+    let NR := requireNoReferrer p || (ext && requireNoReferrerFQ p) in
+    (NF = true -> has_rel out = true /\ rel_all (has_tok (B"nofollow")) out) /\
+    (NR = true -> has_rel out = true /\ rel_all (has_tok (B"noreferrer")) out) /\
+    (beqb elem (B"a") = true -> ext && addTargetBlank p = true -> first_target_blank out) /\
+    (beqb elem (B"a") = true -> has_blank_target out = true -> has_rel out = true /\ rel_all (has_tok (B"noopener")) out).
+
+  Theorem C11_attrs : forall elem attrs aps ext,
+    link_options_on M U R p = true -> mem elem link_rel_elements = true ->
+    href_external I (sanitize_attrs I p elem attrs aps) = (true, ext) ->
+    link_hardened elem (sanitize_attrs I p elem attrs aps) ext /\
+    (forall t, let clean := flat_map (filter_attr I p elem aps (has_style_policies I p elem)) attrs in
+               has_rel clean = true -> rel_all (has_tok t) clean -> rel_all (has_tok t) (sanitize_attrs I p elem attrs aps)).
+  Proof.
+    intros elem attrs aps ext Ho He Hh.
+    pose proof (sanitize_attrs_links M U R I p link_rel_linkable_all elem attrs aps ext) as S. cbv zeta in S.
+    destruct (S Ho He Hh) as (S1 & S2 & S3 & S4 & S5). split; [|exact S5].
+    unfold link_hardened. cbv zeta. auto.
+  Qed.
+
+  (* the tags a tokenizer reads from the output bytes *)
+  Theorem C11_output_tokens : plain_policy I p -> link_options_on M U R p = true -> forall s n a' ext,
+    In (TStart n a') (tokenize (sanitize_bytes I p s)) \/ In (TSelf n a') (tokenize (sanitize_bytes I p s)) ->
+    mem n link_rel_elements = true -> href_external I a' = (true, ext) ->
+    link_hardened n a' ext.
+  Proof.
+    intros Hplain Ho s n a' ext Hin He Hh.
+    assert (H : exists a aps, a' = clean_attrs I p n a aps).
+    { destruct Hin as [Hin|Hin]; pose proof (output_token_provenance M U R I p Hplain s _ Hin) as H; cbn in H;
+        destruct H as (_ & _ & a & aps & _ & _ & Ha & _); eauto. }
+    destruct H as (a & aps & ->). unfold clean_attrs in *. destruct a as [|a0 ar]; [discriminate Hh|].
+    apply (C11_attrs n (a0 :: ar) aps ext Ho He Hh).
+  Qed.
+End C11.
+
 Print Assumptions C11_first_loop_partial.
+Print Assumptions C11_attrs.
+Print Assumptions C11_output_tokens.
 Print Assumptions C11_noopener_loop_partial.
 Print Assumptions C11_noopener_keeps_tokens.
 Print Assumptions C11_elements.
+
+(* non-vacuity: a policy with RequireNoFollowOnLinks and AddTargetBlankToFullyQualifiedLinks, an a
+   element with a host-qualified href; the oracle is a fixed parse result *)
+From BM Require Import Builder GenScripts C04Inst.
+Definition ex_interp : interp smatcher unit unit :=
+  {| mmatch := fun _ _ => true; upol := fun _ _ => true; rewrite := fun _ b => b;
+     url_parse := fun b => Some {| u_scheme := B"http"; u_host := B"example.com"; u_opaque := []; u_rawquery := [];
+                                   u_fragment := []; u_string := b |};
+     css_decls := fun _ => None |}.
+Definition ex_policy : policy smatcher unit unit :=
+  build no_default [@OAllowAttrs _ _ _ [B"href"] None false (@OnElements _ [B"a"]); @OAllowURLSchemes _ _ _ [B"http"];
+                    @ORequireNoFollowOnLinks _ _ _ true; @OAddTargetBlankToFullyQualifiedLinks _ _ _ true].
+Definition ex_aps := match lookup (B"a") (elsAndAttrs ex_policy) with Some aps => aps | None => [] end.
+Example C11_example_premises :
+  link_options_on _ _ _ ex_policy = true /\ mem (B"a") link_rel_elements = true /\
+  href_external ex_interp (sanitize_attrs ex_interp ex_policy (B"a") [(B"href", B"http://example.com/")] ex_aps) = (true, true).
+Proof. split; [vm_compute; reflexivity|]. split; vm_compute; reflexivity. Qed.
+Example C11_example_result :
+  sanitize_attrs ex_interp ex_policy (B"a") [(B"href", B"http://example.com/")] ex_aps =
+    [(B"href", B"http://example.com/"); (B"rel", B"nofollow noopener"); (B"target", B"_blank")].
+Proof. vm_compute. reflexivity. Qed.
